@@ -3,7 +3,7 @@ import pipeline
 
 LEAN_MODULES = ['PomerolModel.Properties.C01']
 GENERATED = ['gf']
-THEOREMS = ["Pomerol.Properties.C01." + t for t in ['gf_equals_definition', 'lehmann_any_basis', 'terms_sum_to_lehmann', 'dropped_terms_budget', 'container_equals_standalone']]
+THEOREMS = ["Pomerol.Properties.C01." + t for t in ['gf_equals_definition', 'lehmann_any_basis', 'terms_sum_to_lehmann', 'dropped_terms_budget', 'container_equals_standalone', 'dropped_terms_budget_extracted', 'sparse_walk_is_full_sum', 'sparse_walk_computes_lehmann_part', 'block_pairs_complete', 'loops_compute_lehmann_sum']]
 RULE = 'a case = random lattice model (1-3 sites, presets and user terms incl. N- or S_z-breaking ones), symmetry mode, beta, all/sampled (i,j) incl. off-diagonal, Matsubara numbers incl. negative and large; value compared with the full-Fock-space Lehmann sum from the certified eigen-system; non-trivial = distinct case with at least two modes'
 TRUSTED = ["harness/pipe.cpp drives the real classes along the documented workflow; case-file protocol with hex doubles",
            "numeric oracle (lean/Driver/Numeric*.lean): IEEE double arithmetic of compiled Lean, full-Fock-space sums",
@@ -11,7 +11,7 @@ TRUSTED = ["harness/pipe.cpp drives the real classes along the documented workfl
 ASSUMPTIONS = ["exact real/complex arithmetic in the theorems; tolerance tests idealised unless stated",
                "numerical comparison tolerance: proven budget + 1e-9 relative rounding slack"]
 LEVEL_TEXT = 'Proof: lehmann_single (Gdef = Lehmann sum for every spectrum, beta, pair of matrices, Matsubara number; definition with matrix exponentials, any unitary basis via corr_conj) composed with gf_sum/gf_matsubara (the Residue/Pole/term formulas extracted from GreensFunctionPart.cpp sum to that Lehmann sum), plus the term-list bookkeeping theorem (kept + dropped = all, each dropped residue below the extracted tolerance). Tie: every G value of the real library (stand-alone and container) is compared with the full-space Lehmann sum computed from the certified eigen-system within the dropped-residue budget.'
-LEVEL_NOTE = "Trusted: Lean kernel + Mathlib; translator anchors; Eigen's eigensolver (certified per case); block-pair selection and sparse merge walk tied by differential comparison only; IEEE rounding not modelled."
+LEVEL_NOTE = "Trusted: Lean kernel + Mathlib; translator anchors; Eigen's eigensolver (certified per case); the loop structure (block-pair selection by the merge walk over the two bimaps, index-chasing walk over sparse rows/columns) is modelled (Model/GFPart.lean, guard flags extracted from the source) and PROVED to produce exactly the Lehmann sum (loops_compute_lehmann_sum); that model is tied to the code by the extracted flags and by the numeric oracle comparing the implementation with the same sum; IEEE rounding not modelled."
 TECHNIQUE = 'Lean 4/Mathlib proof of the Lehmann representation over translator-regenerated formulas + full-Fock-space differential oracle'
 DESIGN_REF = "DESIGN.md section 6, C01"
 
